@@ -147,11 +147,18 @@ class _Unroll(ast.NodeTransformer):
     analyses see `for x in (a, b): ...` and the written-out sequence as the same program."""
 
     MAX = 4
+    MAX_TABLE = 6
+
+    def __init__(self, tables: dict | None = None) -> None:
+        self.tables = tables or {}
 
     def visit_For(self, node: ast.For):
         self.generic_visit(node)
         it = node.iter
-        if not isinstance(it, (ast.Tuple, ast.List)) or not (1 <= len(it.elts) <= self.MAX) or node.orelse:
+        if isinstance(it, ast.Name) and it.id in self.tables and 1 <= len(self.tables[it.id]) <= self.MAX_TABLE and not node.orelse:
+            # a module-level table of constants (`for kind in _KINDS:`): the same as the literal tuple
+            it = ast.Tuple(elts=[ast.copy_location(ast.Constant(value=v), node.iter) for v in self.tables[it.id]], ctx=ast.Load())
+        if not isinstance(it, (ast.Tuple, ast.List)) or not (1 <= len(it.elts) <= max(self.MAX, self.MAX_TABLE if it is not node.iter else self.MAX)) or node.orelse:
             return node
         if any(isinstance(e, ast.Starred) for e in it.elts):
             return node
@@ -164,13 +171,142 @@ class _Unroll(ast.NodeTransformer):
         import copy
 
         out: list[ast.stmt] = []
+        stores_target = isinstance(node.target, ast.Name) and any(
+            isinstance(x, ast.Name) and x.id == node.target.id and isinstance(x.ctx, (ast.Store, ast.Del)) for st in node.body for x in ast.walk(st))
         for e in it.elts:
             tgt = copy.deepcopy(node.target)
             asg = ast.Assign(targets=[tgt], value=copy.deepcopy(e), type_comment=None)
             ast.copy_location(asg, node)
             out.append(asg)
-            out.extend(copy.deepcopy(st) for st in node.body)
+            body = [copy.deepcopy(st) for st in node.body]
+            if isinstance(e, ast.Constant) and isinstance(node.target, ast.Name) and not stores_target:
+                # the loop variable is this constant throughout the iteration: substitute it and fold what becomes constant
+                body = [_FoldConst(node.target.id, e.value).visit(st) for st in body]
+            out.extend(body)
         return out
+
+
+class _FoldConst(ast.NodeTransformer):
+    """Replace loads of ``name`` by a constant; fold f-strings and getattr/setattr with constant names."""
+
+    def __init__(self, name: str, value) -> None:
+        self.name, self.value = name, value
+
+    def visit_Name(self, n: ast.Name):
+        if n.id == self.name and isinstance(n.ctx, ast.Load):
+            return ast.copy_location(ast.Constant(value=self.value), n)
+        return n
+
+    def visit_JoinedStr(self, n: ast.JoinedStr):
+        self.generic_visit(n)
+        parts = []
+        for v in n.values:
+            if isinstance(v, ast.Constant) and isinstance(v.value, str):
+                parts.append(v.value)
+            elif isinstance(v, ast.FormattedValue) and v.conversion == -1 and v.format_spec is None and isinstance(v.value, ast.Constant) and isinstance(v.value.value, (str, int)):
+                parts.append(str(v.value.value))
+            else:
+                return n
+        return ast.copy_location(ast.Constant(value="".join(parts)), n)
+
+    def visit_Call(self, n: ast.Call):
+        self.generic_visit(n)
+        return _attr_idiom(n)
+
+    def visit_Expr(self, n: ast.Expr):
+        self.generic_visit(n)
+        return _setattr_idiom(n)
+
+
+def _attr_idiom(n: ast.Call):
+    """`getattr(obj, "name")` with a constant identifier is `obj.name`."""
+    if isinstance(n.func, ast.Name) and n.func.id == "getattr" and len(n.args) == 2 and not n.keywords and isinstance(n.args[1], ast.Constant) \
+            and isinstance(n.args[1].value, str) and n.args[1].value.isidentifier():
+        return ast.copy_location(ast.Attribute(value=n.args[0], attr=n.args[1].value, ctx=ast.Load()), n)
+    return n
+
+
+def _setattr_idiom(n: ast.Expr):
+    """`setattr(obj, "name", v)` as a statement with a constant identifier is `obj.name = v`."""
+    c = n.value
+    if isinstance(c, ast.Call) and isinstance(c.func, ast.Name) and c.func.id == "setattr" and len(c.args) == 3 and not c.keywords \
+            and isinstance(c.args[1], ast.Constant) and isinstance(c.args[1].value, str) and c.args[1].value.isidentifier():
+        tgt = ast.Attribute(value=c.args[0], attr=c.args[1].value, ctx=ast.Store())
+        return ast.copy_location(ast.Assign(targets=[tgt], value=c.args[2], type_comment=None), n)
+    return n
+
+
+def _static_tables(tree: ast.Module) -> dict:
+    """Module-level names bound once to a tuple / list of string or number constants that can be evaluated
+    without running anything: literals, other such tables, f-strings over them, tuple(<generator over tables>)."""
+    env: dict = {}
+    counts: dict = {}
+    for st in tree.body:
+        for t in (st.targets if isinstance(st, ast.Assign) else [st.target] if isinstance(st, ast.AnnAssign) else []):
+            if isinstance(t, ast.Name):
+                counts[t.id] = counts.get(t.id, 0) + 1
+
+    class _No(Exception):
+        pass
+
+    def ev(e, loc):
+        if isinstance(e, ast.Constant) and isinstance(e.value, (str, int)) and not isinstance(e.value, bool):
+            return e.value
+        if isinstance(e, (ast.Tuple, ast.List)):
+            return tuple(ev(x, loc) for x in e.elts)
+        if isinstance(e, ast.Name):
+            if e.id in loc:
+                return loc[e.id]
+            if e.id in env:
+                return env[e.id]
+            raise _No
+        if isinstance(e, ast.JoinedStr):
+            out = ""
+            for v in e.values:
+                if isinstance(v, ast.Constant):
+                    out += str(v.value)
+                elif isinstance(v, ast.FormattedValue) and v.conversion == -1 and v.format_spec is None:
+                    out += str(ev(v.value, loc))
+                else:
+                    raise _No
+            return out
+        if isinstance(e, ast.Call) and isinstance(e.func, ast.Name) and e.func.id in ("tuple", "list") and len(e.args) == 1 and not e.keywords:
+            return tuple(ev(e.args[0], loc))
+        if isinstance(e, (ast.GeneratorExp, ast.ListComp)):
+            res: list = []
+
+            def rec(i, loc2):
+                if len(res) > 24:
+                    raise _No
+                if i == len(e.generators):
+                    res.append(ev(e.elt, loc2))
+                    return
+                g = e.generators[i]
+                if g.ifs or g.is_async or not isinstance(g.target, ast.Name):
+                    raise _No
+                for v in ev(g.iter, loc2):
+                    rec(i + 1, {**loc2, g.target.id: v})
+
+            rec(0, dict(loc))
+            return tuple(res)
+        raise _No
+
+    for st in tree.body:
+        tgt = val = None
+        if isinstance(st, ast.Assign) and len(st.targets) == 1:
+            tgt, val = st.targets[0], st.value
+        elif isinstance(st, ast.AnnAssign) and st.value is not None:
+            tgt, val = st.target, st.value
+        if isinstance(tgt, ast.Name) and counts.get(tgt.id) == 1:
+            try:
+                v = ev(val, {})
+            except _No:
+                continue
+            except Exception:  # noqa: BLE001
+                continue
+            if isinstance(v, tuple) and v and all(isinstance(x, (str, int)) for x in v):
+                env[tgt.id] = v
+    return env
 
 
 _INPLACE_UFUNCS = {"negative": ("unary", ast.USub), "multiply": ("bin", ast.Mult), "add": ("bin", ast.Add), "subtract": ("bin", ast.Sub), "divide": ("bin", ast.Div)}
@@ -755,7 +891,11 @@ INLINE_PROCEDURES = True
 
 
 def normalise_tree(tree: ast.Module) -> ast.Module:
-    tree = _Unroll().visit(tree)
+    try:
+        tables = _static_tables(tree)
+    except Exception:  # noqa: BLE001 - optional normal form
+        tables = {}
+    tree = _Unroll(tables).visit(tree)
     tree = _Idioms().visit(tree)
     if INLINE_PROCEDURES:
         try:
